@@ -76,7 +76,11 @@ def run(ctx, R, tier):
     from ..report import Rules
     from . import c06
     R6 = Rules("C06")
-    c06.run(ctx, R6, tier)
+    try:
+        c06.run(ctx, R6, tier)
+    except AnalysisError as _shared_x:
+        # the other property's own anchors are gone on this tree: its check reports that; what it produced before is still shared
+        R.note("obligations shared from C06 are incomplete on this tree: %s" % _shared_x)
     for o in R6.obs:
         if o.key == "C06-R3|decoder|chunk-length-unsigned":
             R.add("C05-R6", "decoder|chunk-length-unsigned", o.desc + " (a negative length would keep the cursor from advancing: the worker / the multiplex "
@@ -85,7 +89,11 @@ def run(ctx, R, tier):
     # TimeoutError (shared with C17-R2) - one that sleeps and goes on lets a client that sends a few bytes and then nothing hold its worker (or the multiplex loop) for ever
     from . import c17 as _c17
     R17_ = Rules("C17")
-    _c17.run(ctx, R17_, tier)
+    try:
+        _c17.run(ctx, R17_, tier)
+    except AnalysisError as _shared_x:
+        # the other property's own anchors are gone on this tree: its check reports that; what it produced before is still shared
+        R.note("obligations shared from C17 are incomplete on this tree: %s" % _shared_x)
     for o in R17_.obs:
         if o.rule == "C17-R2" and o.key.split("|")[1] == "receive_data" and o.key.endswith(":TimeoutError"):
             R.add("C05-R1b", "receive_data|" + o.key.split("|", 2)[2], o.desc + " (a stalled peer is dropped after COMMTIMEOUT instead of holding a worker or the event loop)", o.ok, o.loc, o.detail)
